@@ -24,10 +24,10 @@ package internal
 //@   modifies ghost:wsn at out; ghost:wss at out
 //@   gvar race bool
 //@   update after-call IsRace#1: race := ret0
-//@   assert after-call IsRace#1: [raceTestOnTheScannedSnapshot C08 C16] arg0 == c
-//@   assert after-call Aggregate#1: [aggregatesTheScannedSnapshotAtTheRequestedLevel C05 C16] !race && arg0 == c && arg1 == s
+//@   assert after-call IsRace#1: [raceTestOnTheScannedSnapshot C16] arg0 == c
+//@   assert after-call Aggregate#1: [aggregatesTheScannedSnapshotAtTheRequestedLevel C16] !race && arg0 == c && arg1 == s
 //@   assert after-call writeBucketsToConsole#1: [bucketsRenderedWithTheGivenSettings C16] !race && html == "" && arg0 == out && arg1 == p && arg3 == pf && arg5 == filter && arg6 == match
-//@   assert after-call writeGoroutinesToConsole#1: [raceRenderedGoroutineByGoroutine C08 C16] race && html == "" && arg0 == out && arg1 == p && arg2 == c && arg3 == pf && arg5 == filter && arg6 == match
+//@   assert after-call writeGoroutinesToConsole#1: [raceRenderedGoroutineByGoroutine C16] race && html == "" && arg0 == out && arg1 == p && arg2 == c && arg3 == pf && arg5 == filter && arg6 == match
 //@   ensures wsn(out) >= old(wsn(out))
 //@   ensures result != io.EOF
 
